@@ -244,6 +244,8 @@ func hasFrameSyntax(f refframe.Framing, s []byte) bool {
 var framings = []refframe.Framing{
 	{Name: "split", Split: '\n'},
 	{Name: "split", Split: 0x1e},
+	{Name: "split", Split: 0xff}, // terminators outside ASCII are bytes, not characters
+	{Name: "split", Split: 0x80},
 	{Name: "strict", Mime: ""},
 	{Name: "strict", Mime: "text/plain"},
 	{Name: "header", Mime: ""},
